@@ -62,9 +62,9 @@ func init() {
 			GoString:     func(v interface{}) string { return fmt.Sprintf("verifops(%d)", v.(*capPayload).N) },
 			TypeGoString: func(reflect.Type) string { return "verifopsType" },
 			Equals: func(a, b interface{}) cty.Value {
-				return cty.BoolVal(a.(*capPayload).N%4 == b.(*capPayload).N%4)
+				return cty.BoolVal(a.(*capPayload).N%8 == b.(*capPayload).N%8)
 			},
-			RawEquals: func(a, b interface{}) bool { return a.(*capPayload).N%4 == b.(*capPayload).N%4 },
+			RawEquals: func(a, b interface{}) bool { return a.(*capPayload).N%8 == b.(*capPayload).N%8 },
 			HashKey:   func(v interface{}) string { return fmt.Sprint(v.(*capPayload).N % 2) },
 		}),
 	}
@@ -821,7 +821,7 @@ func descSame(a, b *VDesc) Tri {
 		if a.T.Cap == 0 {
 			return triOf(a.Cap == b.Cap)
 		}
-		return triOf(a.Cap%4 == b.Cap%4)
+		return triOf(a.Cap%8 == b.Cap%8)
 	case KList, KTuple:
 		if len(a.Elems) != len(b.Elems) {
 			return No
